@@ -2,7 +2,7 @@
 # Confirms every seeded change: applies to the commit it was written for, the library builds, the unedited
 # suite passes, the demonstration fails with the change and passes without. Writes seeded/<id>/verify.txt.
 export GOFLAGS=-mod=mod GOPROXY=off GOSUMDB=off GOTOOLCHAIN=local
-BASE=5d3caec
+BASE=${SEEDBASE:-5d3caec}
 WT=/tmp/seedwt_$$
 cd /repo && git worktree add -q --detach $WT $BASE || exit 2
 for d in /verif/seeded/*/; do
